@@ -153,13 +153,25 @@ type c05World struct {
 	open         bool
 	// shapes of recorded known defects that occurred in this run (for attribution)
 	shapeEmptyMemSetRecommit bool
+	shapeSingleLeafAbandoned bool
+	shapeTwiceAbandoned      bool
+	abandoned                map[int64]int // height -> how often a block at that height was abandoned
 }
 
 func (w *c05World) fail(v *simrt.Violation) {
 	if v != nil && w.viol == nil {
-		shape := "no-known-shape"
+		shape := ""
 		if w.shapeEmptyMemSetRecommit {
-			shape = "empty-memset-recommit-at-reused-height"
+			shape += "+empty-memset-recommit-at-reused-height"
+		}
+		if w.shapeSingleLeafAbandoned {
+			shape += "+abandoned-single-leaf-state"
+		}
+		if w.shapeTwiceAbandoned {
+			shape += "+height-abandoned-twice"
+		}
+		if shape == "" {
+			shape = "no-known-shape"
 		}
 		v.Sig += "|" + w.cfg.String() + "|" + shape
 		w.viol = v
@@ -167,7 +179,7 @@ func (w *c05World) fail(v *simrt.Violation) {
 }
 
 func (c05) Execute(t *testing.T, ctx *simrt.Ctx) *simrt.Violation {
-	w := &c05World{ctx: ctx, content: map[string]*State{}}
+	w := &c05World{ctx: ctx, content: map[string]*State{}, abandoned: map[int64]int{}}
 	if d := os.Getenv("VERIF_C05_DUMP"); d != "" {
 		_ = simrt.WriteReplay(d, ctx.Sc)
 	}
@@ -281,6 +293,11 @@ func (w *c05World) commit(mode int64, h int64, batch []simrt.Op, how string) {
 	ctx := w.ctx
 	parent := w.tip()
 	pst := w.content[string(parent.root)]
+	if !w.open && pst.Len() < 2 && len(batch) > 0 {
+		// strict runs: no single-key states (a tree that is one leaf is stored without
+		// height prefix, which the re-commit clean-up cannot find: recorded known shape)
+		batch = append(append([]simrt.Op(nil), batch...), KVOp([]byte("mavl-acc-pad1"), []byte("p1")), KVOp([]byte("mavl-acc-pad2"), []byte("p2")))
+	}
 	child := applyModel(pst, batch)
 	kvs := KVs(batch)
 	if len(kvs) == 0 && mode == 1 && h <= w.maxH {
@@ -356,6 +373,21 @@ func (w *c05World) rollback(k int64) (dropped []chainPos) {
 			break
 		}
 		last := w.chain[len(w.chain)-1]
+		if w.abandoned[last.height] >= 1 {
+			// A height whose block was abandoned before is abandoned again: the
+			// re-commit clean-up then walks the first abandoned root, which pruning may
+			// have thinned out meanwhile (recorded known shape). Strict runs stop here.
+			if !w.open {
+				break
+			}
+			w.shapeTwiceAbandoned = true
+			w.ctx.Probe("height_abandoned_twice")
+		}
+		w.abandoned[last.height]++
+		if w.content[string(last.root)].Len() == 1 {
+			w.shapeSingleLeafAbandoned = true
+			w.ctx.Probe("abandoned_single_leaf_state")
+		}
 		w.chain = w.chain[:len(w.chain)-1]
 		w.future = append([]int64{last.height}, w.future...)
 		dropped = append([]chainPos{last}, dropped...)
